@@ -77,6 +77,10 @@ func StandardFinish(w *harness.World) {
 func verdictViol(res harness.ExecResult, hist []string) []explore.Viol {
 	var notes []explore.Viol
 	for _, n := range harness.Notes(res) {
+		if strings.HasPrefix(n, "copy-on-write discipline") {
+			notes = append(notes, explore.Viol{Oracle: "lockset", Sig: "cow:collections-map-modified-in-place", Msg: n + " after [" + strings.Join(hist, " ") + "]"})
+			continue
+		}
 		notes = append(notes, explore.Viol{Oracle: "lockset", Sig: "lockset:" + strings.SplitN(n, " is accessed", 2)[0], Msg: n + " after [" + strings.Join(hist, " ") + "]"})
 	}
 	if res.Verdict == "" {
